@@ -43,9 +43,9 @@ theorem TokPost.after_trF {spec spec2 : SState → Spec.TreeModes.M (Step Id)} {
     (he2 : TBSafe.Ext s1.dom s'.dom) (h : TokPost spec2 s1 tok res s' c2)
     (hspec : ∀ x x1, AuxOk s x → AuxOk s1 x1 → R x x1 → spec (absF s x) = spec2 (absF s1 x1)) :
     TokPost spec s tok res s' (c1 ++ c2) := by
-  obtain ⟨hm1, hc1, he1, ids1, f1⟩ := htr
-  obtain ⟨hres, hminv, hcfg, ids2, f2⟩ := h
-  refine ⟨hres, hminv, hcfg.trans hc1, ids1 ++ ids2, fun x rest hx hsup => ?_⟩
+  obtain ⟨hm1, hc1, he1, ids1, hfi1, f1⟩ := htr
+  obtain ⟨hres, hminv, hcfg, ids2, hfi2, f2⟩ := h
+  refine ⟨hres, hminv, hcfg.trans hc1, ids1 ++ ids2, hfi1.append (hfi2.of_dom he1), fun x rest hx hsup => ?_⟩
   obtain ⟨x1, l1, r1⟩ := f1 x (ids2 ++ rest) hx (by rw [hsup, List.append_assoc])
   obtain ⟨x', ops, e, p1, p2, p3, p4, p5, p6, p7⟩ := f2 x1 rest l1.aux l1.supply
   obtain ⟨ops1, e1, k1⟩ := l1.log
@@ -61,8 +61,8 @@ theorem TokPost.pre_errF {spec spec' : SState → Spec.TreeModes.M (Step Id)} {s
     (he : ∀ x, AuxOk s x → ∀ x', spec (absF s { x with errors := E x }) = .ok (stepOf res s' x') →
       spec' (absF s x) = .ok (stepOf res s' x')) :
     TokPost spec' s tok res s' calls := by
-  obtain ⟨h1, h2, h3, ids, f⟩ := h
-  refine ⟨h1, h2, h3, ids, fun x rest hx hs => ?_⟩
+  obtain ⟨h1, h2, h3, ids, hfi, f⟩ := h
+  refine ⟨h1, h2, h3, ids, hfi, fun x rest hx hs => ?_⟩
   obtain ⟨x', ops, e, r1, r2, r3, r4, r5, r6, r7⟩ :=
     f { x with errors := E x } rest ⟨hx.live, hx.annot, hx.annotEl, hx.xlog⟩ hs
   exact ⟨x', ops, he x hx x' e, r1, r2, r3, r4, r5, r6, r7⟩
